@@ -6316,7 +6316,7 @@ static void parseSingleResponseRevocationTimeAndReason(
             sizeof(res->revocationTime));
         /* revocationReason    [0]     EXPLICIT CRLReason OPTIONAL
            CRLReason ::= ENUMERATED [RFC 5280] */
-        if (glen >= sizeof(res->revocationTime) + 0x5 &&
+        if (glen >= sizeof(res->revocationTime) + 0x7 &&
             p[17] == 0xa0 &&     /* [0] */
             p[18] == 0x03 &&     /* length */
             p[19] == 0x0a &&     /* ENUMERATED */
